@@ -94,7 +94,7 @@ func discharge(o *Obligation, idx int, opt solveOpts) {
 	if !opt.keep {
 		defer os.Remove(file)
 	}
-	useCvc5 := !strings.Contains(q, "str.<") && !strings.Contains(q, "(lambda")
+	useCvc5 := !strings.Contains(q, "(lambda")
 	// first: z3-new alone with a short budget (most goals take milliseconds)
 	first := runSolver(solvers[0], file, 1, opt.seed)
 	o.Time += first.time
